@@ -3,6 +3,7 @@ from __future__ import annotations
 
 import random
 import re
+import os
 import shutil
 import urllib.parse
 
@@ -131,7 +132,7 @@ def run_text(ctx, pydsdl, deps, text, kind, workdir, api, as_dependency=False):
         text = text.replace(GT.ROOT + ".Main.1.0", GT.ROOT + ".Zmain.1.0")
     else:
         main = root / "Main.1.0.dsdl"
-    main.write_bytes(text.encode("utf-8"))
+    main.write_bytes(text.encode("utf-8", "surrogateescape" if kind == "bytes" else "strict"))  # kind 'bytes': lone surrogates stand for raw bytes 0x80-0xFF
     case = {"deps": deps, "text": text, "kind": kind, "api": api, "as_dependency": as_dependency}
     allowed = {(base / GT.def_path(d)).resolve() for d in deps}
     try:
@@ -156,23 +157,47 @@ def run_text(ctx, pydsdl, deps, text, kind, workdir, api, as_dependency=False):
         shutil.rmtree(base, ignore_errors=True)
 
 
+_STEP_METER = []
+
+
 def run_chain(ctx, pydsdl, case, workdir):
+    """
+    A chain of definitions each holding `fanout` fields of the next one (fanout 2-3: the number of paths to the leaf doubles /
+    triples per level, the number of definitions and statements does not).  Reading must end with a model or an
+    InvalidDefinitionError within a number of logical steps (PY_START + JUMP events in pydsdl code) linear in the number of
+    definitions; measured on the unchanged tree: < 2500 steps per definition, the budget allows 30000.
+    """
+    from pv.core import repo_root
+    from pv.mon.symbolic import BudgetExceeded, SymbolicMonitor
+
     base = workdir / "c13c"
     shutil.rmtree(base, ignore_errors=True)
     root = base / "chain"
     root.mkdir(parents=True)
     n = case["chain"]
+    fan = case.get("fanout", 1)
     for i in range(n):
-        nxt = "T%03d.1.0%s next\n" % (i + 1, "[<=2]" if case["array"] else "") if i + 1 < n else "uint8 leaf\n"
+        nxt = "".join("T%03d.1.0%s next%d\n" % (i + 1, "[<=2]" if case["array"] else "", k) for k in range(fan)) if i + 1 < n else "uint8 leaf\n"
         (root / ("T%03d.1.0.dsdl" % i)).write_text(nxt + "@sealed\n")
     ctx.mon("chain")
+    if not _STEP_METER:
+        _STEP_METER.append(SymbolicMonitor(pydsdl, repo_root() / "pydsdl"))
+    mon = _STEP_METER[0]
+    mon.reset()
+    mon.step_budget = 30000 * n + 400000
+    mon.steps_on()
     try:
         if case["api"] == "read_files":
             fn = lambda: pydsdl.read_files([root / "T000.1.0.dsdl"], [root])  # noqa
         else:
             fn = lambda: pydsdl.read_namespace(root, [])  # noqa
-        return classify(ctx, pydsdl, fn, None, set(), "dependency chain of depth %d" % n, case)
+        return classify(ctx, pydsdl, fn, None, set(), "dependency chain of depth %d, fan-out %d" % (n, fan), case)
+    except BudgetExceeded:
+        ctx.violation("C13/non-termination/nesting", "reading a chain of %d definitions with %d fields of the next type each did not end within %d logical steps" % (
+            n, fan, mon.step_budget), case)
+        return "budget"
     finally:
+        mon.steps_off()
         shutil.rmtree(base, ignore_errors=True)
 
 
@@ -198,9 +223,17 @@ def run_shard(ctx):
         elif r < 0.65:
             text = GF.mutate_chars(rng, seed_text, rng.choice([1, 2, 4]))
             kind = "chars"
-        elif r < 0.72:
+        elif r < 0.70:
             text = GF.random_noise(rng, rng.randrange(0, 200))
             kind = "noise"
+        elif r < 0.72:
+            # file content that is not UTF-8 text: raw bytes 0x80-0xFF (written through surrogateescape) inside comments, string
+            # literals, identifiers or anywhere; overlong / truncated sequences; a file of random bytes
+            chars = list(seed_text if rng.random() < 0.8 else "")
+            for _ in range(rng.choice([1, 1, 2, 5, 40])):
+                chars.insert(rng.randrange(len(chars) + 1), chr(0xDC00 + rng.choice([0x80, 0xA0, 0xC0, 0xC3, 0xE9, 0xED, 0xF5, 0xFE, 0xFF, rng.randrange(0x80, 0x100)])))
+            text = "".join(chars)
+            kind = "bytes"
         elif r < 0.76:
             lines = seed_text.replace("\r\n", "\n").split("\n") if rng.random() < 0.5 else ["@sealed"]
             lines.insert(rng.randrange(len(lines) + 1), GF.deep_statement(rng))
@@ -224,7 +257,7 @@ def run_shard(ctx):
         nest = GF.max_nesting(text)
         ctx.cls("nesting-%s" % ("<=16" if nest <= 16 else "17..40" if nest <= 40 else "41..100" if nest <= 100 else ">100"))
         try:
-            text.encode("utf-8")
+            text.encode("utf-8", "surrogateescape" if kind == "bytes" else "strict")
         except UnicodeEncodeError:
             ctx.cls("dropped-not-utf8")
             continue
@@ -240,7 +273,7 @@ def run_shard(ctx):
             ctx.inconclusive_case("watchdog", {"text": text})
             out = "timeout"
         nontrivial = text != seed_text and text.strip() != ""
-        ctx.case(hashlib.sha1(text.encode()).hexdigest() + str(as_dep), nontrivial, classes=["kind-" + kind, "outcome-" + out.split(":")[0], "as-dependency" if as_dep else "as-target"] +
+        ctx.case(hashlib.sha1(text.encode("utf-8", "surrogateescape")).hexdigest() + str(as_dep), nontrivial, classes=["kind-" + kind, "outcome-" + out.split(":")[0], "as-dependency" if as_dep else "as-target"] +
                  (["err-" + out.split(":")[1]] if out.startswith("error:") else []),
                  sample={"kind": kind, "text": text[:300], "outcome": out} if i <= 3 else None)
     # chains of dependencies far deeper than any real namespace (every level is a recursive reader instance)
@@ -248,14 +281,14 @@ def run_shard(ctx):
         if ctx.out_of_time():
             break
         depth = rng.choice([3, 10, 30, 60, 80, 100, 150, 300])
-        case = {"chain": depth, "api": rng.choice(["read_namespace", "read_files"]), "array": rng.random() < 0.3}
+        case = {"chain": depth, "api": rng.choice(["read_namespace", "read_files"]), "array": rng.random() < 0.3, "fanout": rng.choice([1, 1, 2, 3])}
         try:
             with ctx.watchdog(120):
                 out = run_chain(ctx, pydsdl, case, ctx.tmp)
         except CaseTimeout:
             ctx.inconclusive_case("watchdog", case)
             out = "timeout"
-        ctx.case(("chain", depth, case["api"], case["array"]), True, classes=["kind-chain", "chain-depth-%d" % depth, "chain-outcome-" + out.split(":")[0]])
+        ctx.case(("chain", depth, case["api"], case["array"], case["fanout"]), True, classes=["kind-chain", "chain-depth-%d" % depth, "chain-fanout-%d" % case["fanout"], "chain-outcome-" + out.split(":")[0]])
     # hostile file names
     for j in range(ctx.share(ctx.params["n_names"])):
         if ctx.out_of_time():
@@ -269,7 +302,17 @@ def run_shard(ctx):
         p = root.joinpath(*parts)
         try:
             p.parent.mkdir(parents=True, exist_ok=True)
-            p.write_text(rng.choice(["@sealed\n", "@sealed\n", "uint8 x\n@sealed\n", "uint8 x\n@extent 64\n"]))
+            if rng.random() < 0.15:
+                # the directory entry is a symbolic link: to a definition of this root, to a file or directory elsewhere, to nothing
+                (base / "elsewhere" / "deep").mkdir(parents=True, exist_ok=True)
+                (base / "elsewhere" / "Ext.1.0.dsdl").write_text("uint8 e\n@sealed\n")
+                (base / "elsewhere" / "notes.txt").write_text("not a definition {{{\n")
+                tgt = rng.choice([root / "Ok.1.0.dsdl", base / "elsewhere" / "Ext.1.0.dsdl", base / "elsewhere" / "notes.txt", base / "elsewhere" / "deep",
+                                  base / "elsewhere" / "missing.1.0.dsdl", p, root])
+                p.symlink_to(tgt if rng.random() < 0.5 else os.path.relpath(str(tgt), str(p.parent)))
+                cls = "symlink-" + ("self" if tgt == p else "root" if tgt == root else tgt.name.replace(".", "_"))
+            else:
+                p.write_text(rng.choice(["@sealed\n", "@sealed\n", "uint8 x\n@sealed\n", "uint8 x\n@extent 64\n"]))
         except (OSError, ValueError):
             ctx.cls("name-not-creatable")
             shutil.rmtree(base, ignore_errors=True)
